@@ -2,6 +2,15 @@
 
 package otter
 
+import (
+	"fmt"
+	"strings"
+	"unsafe"
+
+	"github.com/maypok86/otter/v2/internal/deque"
+	"github.com/maypok86/otter/v2/internal/generated/node"
+)
+
 // White-box access for the verification harness (/verif). Added by `go build -overlay`; never committed to the repository.
 
 // VerifSketch exposes the frequency sketch.
@@ -40,4 +49,126 @@ func VerifDrainState[K comparable, V any](c *Cache[K, V]) (ds uint32, wb uint64,
 		c.cache.evictionMutex.Unlock()
 	}
 	return
+}
+
+// VerifPolicy drives the eviction policy directly (white box).
+type VerifPolicy struct {
+	p        *policy[int, int]
+	nm       *node.Manager[int, int]
+	ids      map[unsafe.Pointer]int
+	Nodes    map[int]node.Node[int, int]
+	Evicted  []int
+	Draws    []uint32
+	NextDraw func() uint32
+}
+
+func NewVerifPolicy(weighted bool) *VerifPolicy {
+	v := &VerifPolicy{ids: map[unsafe.Pointer]int{}, Nodes: map[int]node.Node[int, int]{}}
+	v.p = newPolicy[int, int](weighted)
+	v.nm = node.NewManager[int, int](node.Config{WithSize: !weighted, WithWeight: weighted})
+	v.p.rand = func() uint32 {
+		d := v.NextDraw()
+		v.Draws = append(v.Draws, d)
+		return d
+	}
+	return v
+}
+
+func (v *VerifPolicy) evict(n node.Node[int, int], _ int64) {
+	v.p.delete(n)
+	v.Evicted = append(v.Evicted, v.ids[n.AsPointer()])
+}
+
+func (v *VerifPolicy) NewNode(id, key int, weight uint32) {
+	n := v.nm.Create(key, id, 0, 0, weight)
+	v.ids[n.AsPointer()] = id
+	v.Nodes[id] = n
+}
+func (v *VerifPolicy) Add(id int)           { v.p.add(v.Nodes[id], v.evict) }
+func (v *VerifPolicy) Update(id, old int)   { v.p.update(v.Nodes[id], v.Nodes[old], v.evict) }
+func (v *VerifPolicy) Delete(id int)        { v.p.delete(v.Nodes[id]) }
+func (v *VerifPolicy) Access(id int)        { v.p.access(v.Nodes[id]) }
+func (v *VerifPolicy) Retire(id int)        { v.Nodes[id].Retire() }
+func (v *VerifPolicy) SetMaximum(m uint64)  { v.p.setMaximumSize(m) }
+func (v *VerifPolicy) EvictNodes()          { v.p.evictNodes(v.evict) }
+func (v *VerifPolicy) Climb()               { v.p.climb() }
+func (v *VerifPolicy) SketchLen() int       { return len(v.p.sketch.table) }
+func (v *VerifPolicy) RawHash(k int) uint64 { return v.p.sketch.hasher.Hash(k) }
+func (v *VerifPolicy) State(id int) string {
+	n := v.Nodes[id]
+	switch {
+	case n.IsAlive():
+		return "alive"
+	case n.IsRetired():
+		return "retired"
+	}
+	return "dead"
+}
+
+func (v *VerifPolicy) Dump() string {
+	l := func(d *deque.Linked[int, int]) string {
+		var s []string
+		cnt := 0
+		for n := range d.All() {
+			s = append(s, fmt.Sprint(v.ids[n.AsPointer()]))
+			cnt++
+			if cnt > 100000 {
+				s = append(s, "CYCLE")
+				break
+			}
+		}
+		return strings.Join(s, ",")
+	}
+	p := v.p
+	ev := make([]string, len(v.Evicted))
+	for i, e := range v.Evicted {
+		ev[i] = fmt.Sprint(e)
+	}
+	return fmt.Sprintf("w=[%s] p=[%s] q=[%s] ws=%d wws=%d pws=%d max=%d wmax=%d pmax=%d adj=%d ev=[%s]",
+		l(p.window), l(p.probation), l(p.protected), p.weightedSize, p.windowWeightedSize, p.mainProtectedWeightedSize,
+		p.maximum, p.windowMaximum, p.mainProtectedMaximum, p.adjustment, strings.Join(ev, ","))
+}
+
+// VerifAudit compares the table with the eviction policy's bookkeeping (call at quiescence, after CleanUp).
+func VerifAudit[K comparable, V any](c *Cache[K, V]) string {
+	cc := c.cache
+	cc.evictionMutex.Lock()
+	defer cc.evictionMutex.Unlock()
+	p := cc.evictionPolicy
+	linked := map[unsafe.Pointer]int{}
+	deadLinked, sumLinked := 0, uint64(0)
+	for _, d := range []*deque.Linked[K, V]{p.window, p.probation, p.protected} {
+		n := 0
+		for nd := range d.All() {
+			linked[nd.AsPointer()]++
+			if !nd.IsAlive() {
+				deadLinked++
+			}
+			sumLinked += uint64(nd.Weight())
+			n++
+			if n > 10000000 {
+				break
+			}
+		}
+	}
+	dup := 0
+	for _, c := range linked {
+		if c > 1 {
+			dup++
+		}
+	}
+	table, unlinked, notAlive, sumTable := 0, 0, 0, uint64(0)
+	cc.hashmap.Range(func(n node.Node[K, V]) bool {
+		table++
+		sumTable += uint64(n.Weight())
+		if !n.IsAlive() {
+			notAlive++
+		}
+		if linked[n.AsPointer()] == 0 {
+			unlinked++
+		}
+		return true
+	})
+	return fmt.Sprintf("table=%d linked=%d dup=%d deadlinked=%d unlinked=%d notalive=%d ws=%d sumlinked=%d sumtable=%d max=%d ds=%d wb=%d",
+		table, len(linked), dup, deadLinked, unlinked, notAlive, p.weightedSize, sumLinked, sumTable, p.maximum, cc.drainStatus.Load(), cc.writeBuffer.Size())
 }
